@@ -112,6 +112,22 @@ func (in *Interp) fullModel(m Model) map[string]string {
 }
 
 func (in *Interp) violation(kind, label string, m Model) {
+	if in.uncertain {
+		// the path was kept although the solver could not decide its feasibility
+		r, m2 := in.feasible(in.ts.True)
+		if r == Unsat {
+			panic(pathEnd{"infeasible", "path proved infeasible late"})
+		}
+		if r != Sat {
+			in.res.Inconclusive = append(in.res.Inconclusive, "possible violation ("+kind+": "+label+") on a path whose feasibility the solver could not decide")
+			return
+		}
+		in.uncertain = false
+		in.setModel(m2)
+		if m == nil {
+			m = m2
+		}
+	}
 	v := Violation{Kind: kind, Label: label, Decisions: append([]Decision(nil), in.decisions...)}
 	if m != nil {
 		v.Model = in.fullModel(m)
